@@ -432,6 +432,16 @@ def check_C07(cx):
                         h.append(("C 0 64 %s 1" if mode == 2 else "A 0 %s") % cases.hexs(prog))
                         h += ["G 0", "M 0", "A 0 %s" % cases.hexs(b"nop"), "G 0", "M 0", "F 0"]
                         hists.append(h)
+    # chunk fitting with a padding of SEVERAL nops (a gap of 12..17 bytes in front of a 13..15-byte instruction): every start offset inside
+    # the chunk x every buffer length that leaves 12..45 bytes behind the start (the padding writer, the retried instruction and the
+    # reserve test meet at the end of the buffer)
+    long13 = [b"mov qword [r8d+r9d*4+0x12345678], 0x12345678", b"add qword [eax+r9d*8+0x11223344], 0x11223344", b"vpaddb ymm9, ymm10, [r8d+r9d*8+0x12345678]"]
+    for c in ((16, 24) if cx.tier == "quick" else (14, 16, 20, 24, 32)):
+        for k in range(0, c):
+            for room in range(12, 46):
+                li = (c + k + room) % len(long13)
+                hists.append(["N 0 %d cc" % (k + room), "K 0 %d" % c, "O 0 %d" % k, "A 0 %s" % cases.hexs(long13[li]), "G 0", "M 0",
+                              "A 0 %s" % cases.hexs(b"ret"), "G 0", "M 0", "F 0"])
     nex = len(hists)
     hists += gen_histories(g, 400 if cx.tier == "quick" else 6000, allow_internal=False)
     ops, out = tie_api_mod_lf(cx, impl, hists, "C07 histories on caller buffers with guard regions")
@@ -738,6 +748,19 @@ def check_C13(cx):
         # effective fitting state for the last call: the last K decides (a K below 2 switches fitting off and keeps the size)
         ks = [int(x.split()[2]) for x in h if x.startswith("K ")]
         onoff.append((len(hists) - 1, t2, ks[-1] if ks[-1] >= 2 else 0))
+    # the SAME size again after fitting was switched off (a setter that skips "unchanged" sizes would leave fitting off), with and without
+    # calls in between, and a size change while fitting is off
+    for c in range(2, 25 if cx.tier == "quick" else 41):
+        for off in (0, 1):
+            for variant in range(3):
+                t2 = b"\n".join(r.choice(pool) for _ in range(4))
+                mid1 = ["A 0 %s" % cases.hexs(r.choice(pool)), "G 0"] if variant == 1 else []
+                mid2 = ["A 0 %s" % cases.hexs(r.choice(pool)), "G 0"] if variant >= 1 else []
+                last = c if variant < 2 else c + 1
+                h = ["N 0 400 cc", "K 0 %d" % c] + mid1 + ["K 0 %d" % off] + mid2 + ["K 0 %d" % last, "O 0 40", "A 0 %s" % cases.hexs(t2), "G 0", "D 0 0 400", "F 0"]
+                hists.append(h)
+                meta.append(None)
+                onoff.append((len(hists) - 1, t2, last))
     # a fitting call that fails after some of its lines were laid out, directly followed (no asm_set_offset, no setter) by another call:
     # the second call starts at the unchanged offset and is laid out from there
     afterfail = []
@@ -1583,7 +1606,7 @@ def check_C10(cx):
     good = [b"mov rax, rbx", b"add rcx, 0x10", b"ret"]
     hists, meta = [], []
     pick = r.sample(fams, min(len(fams), 250 if cx.tier == "quick" else 2500))
-    for fam, t in pick:
+    for pidx, (fam, t) in enumerate(pick):
         bt = t.encode("latin1")
         if b"\n" in bt or b"\r" in bt:
             continue
@@ -1592,7 +1615,7 @@ def check_C10(cx):
             pre = b"\n".join(good[:posn])
             # (a trailing d: with the debug listing switched on, asm_set_debug — it may print, it must not change what is accepted)
             for mode in ("A", "K", "C", "Ad", "Kd", "Cd"):
-                if mode.endswith("d") and (len(hists) + posn) % 2:
+                if mode.endswith("d") and pidx % 2:
                     continue
                 h = ["N 0 200 cc"]
                 if mode[0] == "K":
@@ -2269,6 +2292,15 @@ def check_enc(cx):
         cx.oblige("the family of the kernel-checked theorem is the family run on the C code (driver op KF: %s)" % " ".join(kf),
                   len(kf) == 3 and kf[0] == kf[1] and int(kf[0]) > 50000 and kf[2] == "same", err_k[-300:])
         items.update(nop_items())
+        if cx.tier == "thorough":
+            # the independent re-checker on the modules of the kernel theorem: the top module, the by-name assembly and a seeded sample
+            # of the 267 cell modules (each re-evaluates its 192 lines)
+            rs = random.Random(cx.seed)
+            mods = ["AL.Properties.Kernel.C01", "AL.Properties.Kernel.C01Parts", "AL.Properties.KernelDefs"] + \
+                   ["AL.Properties.Kernel.C01_%03d" % k for k in rs.sample(range(267), 12)]
+            for m_ in mods:
+                p_ = alv.run(["lake", "env", "leanchecker", m_], cwd=alv.LEAN, timeout=1800)
+                cx.oblige("leanchecker %s" % m_, p_.returncode == 0, (p_.stdout + p_.stderr)[-1500:])
     cx.oblige("quantifier domain enumerated from the reference opcode table (%d distinct lines)" % len(items), len(items) > 100)
     sup = supported_forms()
     opts = cfg["quick"] if quick else cfg["thorough"]
@@ -2381,6 +2413,7 @@ def check_enc(cx):
             groups.setdefault((items[t].split()[0], pattern_of(items[t]), "spelling (%s) changes the result" % kind), []).append(
                 (vt.decode(), o, got[1], "written normally: rc=%s bytes=%s" % res[(o, t.encode())]))
     stream, expect = ["N 0 4096 cc"], []
+    nops_hex = ["".join("%02x" % x for x in nb) for nb in info["tables"]["nops"]]
     for o in opts:
         stream += ["S 0 mov %d" % (o % 4), "S 0 swap %d" % (o // 4 % 2), "S 0 nobase %d" % (o // 8 % 2)]
         for g_, ts in bygroup.items():
@@ -2395,20 +2428,27 @@ def check_enc(cx):
             for t in pick:
                 rc, b = res[(o, t.encode())]
                 if rc == "0" and b != "-" and 2 <= len(b) // 2 <= 15:
-                    expect.append((len(stream) + 3, o, t, b))
-                    stream += ["K 0 16", "O 0 15", "A 0 %s" % cases.hexs(t.encode()), "D 0 15 %d" % (16 + len(b) // 2)]
+                    # the room left in the chunk: 1, 2 and 4 bytes (a shorter form that would fit must not be substituted), and the same
+                    # position after fitting was switched on AND off again (no padding at all then)
+                    for room in (1, 2, 4):
+                        L = len(b) // 2
+                        pad = nops_hex[room - 1] if L > room else ""
+                        expect.append((len(stream) + 3, o, t, pad + b, 16 - room + len(pad) // 2 + L, "room %d" % room))
+                        stream += ["K 0 16", "O 0 %d" % (16 - room), "A 0 %s" % cases.hexs(t.encode()), "D 0 %d %d" % (16 - room, 16 - room + len(pad) // 2 + L)]
+                    expect.append((len(stream) + 4, o, t, b, 15 + len(b) // 2, "fitting switched off again"))
+                    stream += ["K 0 16", "K 0 0", "O 0 15", "A 0 %s" % cases.hexs(t.encode()), "D 0 15 %d" % (15 + len(b) // 2)]
     n2, out2, mism2, crash2 = alv.correspond(impl, stream, "%s family assembled a second time after padding" % cx.prop)
     if crash2:
         cx.violations.append({"kind": "crash", **crash2})
     for m in mism2:
         cx.broken.append({"correspondence": "second assembly after padding", **m})
-    cx.oblige("correspondence %s family assembled a second time after padding (chunk size 16, offset 15): %d lines" % (cx.prop, len(expect)),
+    cx.oblige("correspondence %s family assembled next to a chunk boundary (chunk size 16; 1, 2, 4 bytes of room; fitting switched off again): %d calls" % (cx.prop, len(expect)),
               not mism2 and not crash2, json.dumps(mism2[:3]))
-    for idx, o, t, b in expect:
+    for idx, o, t, b, endoff, what_ in expect:
         # (the bytes behind the instruction may be left over from an earlier line of this stream: the offset the call returns counts too)
-        if idx < len(out2) and (out2[idx] != "90" + b or out2[idx - 1] != "0 %d" % (16 + len(b) // 2)):
-            groups.setdefault((items[t].split()[0], pattern_of(items[t]), "second assembly after padding differs"), []).append(
-                (t, o, out2[idx] + " (call returns " + out2[idx - 1] + ")", "assembled once: " + b))
+        if idx < len(out2) and (out2[idx] != b or out2[idx - 1] != "0 %d" % endoff):
+            groups.setdefault((items[t].split()[0], pattern_of(items[t]), "assembly next to a chunk boundary differs (%s)" % what_), []).append(
+                (t, o, out2[idx] + " (call returns " + out2[idx - 1] + ")", "expected (padding + the code of the line alone): " + b))
     # the family in ONE call: programs of 40 accepted lines (seeded order) must give the concatenation of the lines' own code — whatever
     # a call carries from line to line (a record that is not rebuilt, a lookup hint, a VEX field) shows here and not in a single line
     rr = random.Random(cx.seed * 7919 + 5)
@@ -2581,7 +2621,7 @@ def check_enc(cx):
 ENC_THEOREMS = {
     "C01": ["AL.Properties.C01.every_register_form", "AL.Properties.Kernel.c01_every_instance", "AL.Properties.Kernel.checkK_sound", "AL.Properties.Kernel.cell_ok",
             "AL.Properties.Sweep.c01_sweep", "AL.Properties.C01.nop_table_decodes", "AL.Properties.C01.no_operand_lines", "AL.Properties.C01.letter_case_irrelevant", "AL.Properties.C01.regpair_fields"],
-    "C02": ["AL.Properties.Sweep.c02_sweep", "AL.Properties.Sweep.c02_sweep_mixed", "AL.Properties.C02.disp_field_reads_back", "AL.Properties.C02.decoder_reads_every_operand", "AL.Properties.C02.mov_load_every_disp", "AL.Properties.C02.mov_load_text", "AL.Lemmas.MemText.mem_line", "AL.Lemmas.MemLoad.mem_bytes", "AL.Lemmas.MemLoad.memBytes_canonical", "AL.Spec.X86.leVal_assembleConst", "AL.Spec.X86.toSigned_roundtrip",
+    "C02": ["AL.Properties.Sweep.c02_sweep", "AL.Properties.Sweep.c02_sweep_mixed", "AL.Properties.Sweep.c02_sweep_extreme", "AL.Properties.C02.disp_field_reads_back", "AL.Properties.C02.decoder_reads_every_operand", "AL.Properties.C02.mov_load_every_disp", "AL.Properties.C02.mov_load_text", "AL.Lemmas.MemText.mem_line", "AL.Lemmas.MemLoad.mem_bytes", "AL.Lemmas.MemLoad.memBytes_canonical", "AL.Spec.X86.leVal_assembleConst", "AL.Spec.X86.toSigned_roundtrip",
             "AL.Properties.C11.swap_same_address", "AL.Properties.C11.nobase_scale2_same_address", "AL.Properties.C11.nobase_scale1_same_address"],
     "C03": ["AL.Properties.Sweep.c03_sweep", "AL.Properties.C03.written_number_value", "AL.Properties.C03.written_number_value_padded", "AL.Properties.C03.imm_field_reads_back", "AL.Properties.C03.imm_field_dword", "AL.Properties.C03.imm_field_qword",
             "AL.Properties.C03.mov_r64_hex", "AL.Properties.C03.mov_r64_neg_hex", "AL.Properties.C03.mov_r64_dec", "AL.Properties.C03.mov_r64_neg_dec",
@@ -3176,6 +3216,15 @@ def check_C19(cx):
              "D 0 0 %d" % max(off, 0), "F 0"]
         hists.append(h)
         meta.append(("bin", off))
+    # ... and with the code ending inside the last bytes of the buffer (the 20-byte reserve in front of the end is ordinary code space
+    # once an instruction has been stored there): caller buffer of 300 bytes, library-managed buffer of 6000
+    for off in list(range(275, 301)):
+        hists.append(["N 0 300 cc", "A 0 %s" % cases.hexs(prog), "O 0 %d" % off, "W 0 %s %s" % (outp, "stale" if off % 2 else "ok"),
+                      "D 0 0 %d" % off, "F 0"])
+        meta.append(("bin", off))
+    for off in list(range(5975, 6001)):
+        hists.append(["N 0 -", "A 0 %s" % cases.hexs(prog), "O 0 %d" % off, "W 0 %s ok" % outp, "D 0 0 %d" % off, "F 0"])
+        meta.append(("bin", off))
     hists.append(["N 0 300 cc", "A 0 %s" % cases.hexs(prog), "W 0 %s bad" % os.path.join(tmp, "no", "such", "dir", "o.bin"), "F 0"])
     meta.append(("bin", "unwritable"))
     # a long history of failing file calls in front of a valid one, in a process with a small descriptor budget: the file entry points
@@ -3292,11 +3341,13 @@ def hex_tokens(text):
 
 
 C20_THEOREMS = ["usage_error_exits", "exit_zero_iff", "option_calls", "option_calls_spec", "parseFlags_opt", "applyLong_opt", "getlines_join", "file_mode_is_library",
-                 "stdin_equals_file", "stdinLoop_plain", "stdinLoop_counting"]
+                 "stdin_equals_file", "stdinLoop_plain", "stdinLoop_counting",
+                 "listing_reads_back", "chunk_dump_reads_back", "p_with_fitting_prints_the_code"]
 
 
 def check_C20(cx):
-    thms = ["AL.Properties.C20." + t for t in C20_THEOREMS]
+    thms = ["AL.Properties.C20." + t for t in C20_THEOREMS] + ["AL.Lemmas.DebugText.parse_printInstr", "AL.Lemmas.DebugText.parse_printChunks",
+                                                                  "AL.Lemmas.DebugText.parse_listing", "AL.Lemmas.DebugText.listingGo_codes"]
     info = stage_proofs(cx, "AL.Properties.C20", thms)
     if not info:
         return finish(cx, "")
@@ -3348,6 +3399,11 @@ def check_C20(cx):
                 os.unlink(os.path.join(tmp, f))
             except OSError:
                 pass
+        # every other invocation finds its output file already there, longer than anything it will write (an earlier run's output):
+        # the file must hold exactly the library's bytes afterwards
+        if (pi + len(toks)) % 2 == 0:
+            for f in (["outP.bin"] if "P" in toks else []) + (["outo.bin"] if "o" in toks else []):
+                open(os.path.join(tmp, f), "wb").write(b"\xee" * 9000)
         av = cli_args(toks, tmp)
         p = subprocess.run([exe] + av + ([] if stdin else [path]), input=prog if stdin else None, stdout=subprocess.PIPE, stderr=subprocess.PIPE,
                            timeout=300, cwd=tmp, env=dict(os.environ, ASAN_OPTIONS="detect_leaks=0"))
@@ -3357,6 +3413,8 @@ def check_C20(cx):
             fp = os.path.join(tmp, f)
             if os.path.exists(fp):
                 filebytes = open(fp, "rb").read().hex() or "-"
+        if filebytes == "ee" * 9000:
+            filebytes = None        # (the run did not touch the file that was there before)
         model_toks = [("P" if t == "Pbad" else "o" if t in LONG_O else t) for t in toks]
         ops.append("CL %s %d %s %d" % (",".join(model_toks) or "-", stdin, cases.hexs(prog), 0 if "Pbad" in toks else 1))
         se = p.stderr.decode("latin1")
@@ -3415,6 +3473,8 @@ def check_C20(cx):
         wants_file = "P" in toks or "o" in toks or any(t in LONG_O for t in toks)
         if wants_file and xrc == 0 and not usage and fb is None:
             bad = "exit status 0 although the requested binary file (NAME.bin for -o NAME) does not exist afterwards"
+        if wants_file and xrc == 0 and not usage and fb is not None and mexit == "0" and fb != mcode:
+            bad = "the binary output file does not hold exactly the bytes the library produced (its length included)"
         key = (pi, tuple(sorted(toks)))
         cnt = None
         if xrc == 0 and any(t.startswith("b=") for t in toks):
